@@ -1567,5 +1567,5 @@ package yqlib
 //@   props C13
 //@   nosafety
 //@   noframe
-//@   at doTraverseMap: assert @merged-maps-are-read-like-the-map-itself {C13} arg0 == newMatches && arg1 == value.Alias && arg2 == wantedKey && arg3 == prefs && arg4 == splat
-//@   at traverseMergeAnchor: assert @merge-lists-entry-by-entry {C13} arg0 == newMatches && arg2 == wantedKey && arg3 == prefs && arg4 == splat
+//@   at doTraverseMap: assert @merged-maps-are-read-like-the-map-itself {C13} arg0 == newMatches && arg1 == value.Alias && arg2 == wantedKey && arg3 == old(prefs) && arg4 == splat
+//@   at traverseMergeAnchor: assert @merge-lists-entry-by-entry {C13} arg0 == newMatches && arg2 == wantedKey && arg3 == old(prefs) && arg4 == splat
